@@ -125,3 +125,106 @@ def install_loop_body_hook(it, func_name, ordinal, setup):
             kind = "return"
         raise LoopExit(env, kind)
     it.loop_hooks[(func_name, ordinal)] = hook
+
+
+# --------------------------------------------------------------------------------------
+# static scan for loop-carried state (evidence for the generic-row rule)
+# --------------------------------------------------------------------------------------
+_MUTATORS = {"add", "append", "extend", "insert", "update", "setdefault", "pop", "popitem", "remove", "discard", "clear", "sort", "reverse",
+             "appendleft", "__setitem__"}
+
+
+def loop_carried(fn):
+    """For every for/while loop of the real function `fn` (ordinals as in Interp.loop_ordinal): the local
+    names through which one iteration can influence a later one -
+      * names assigned in the body that may be read in the body before being (re)assigned in the same
+        iteration (counters, previous-item variables, flags), and
+      * names bound outside the loop on which the body calls a mutating method / stores an item AND which
+        the body also reads otherwise (seen-sets, caches; pure accumulators that are only appended to are
+        not reported).
+    Returns {ordinal: sorted names}.  Conservative in both directions (syntactic); it documents what the
+    generic-row rule assumes and is reported in the evidence, it is not an obligation."""
+    import ast
+    from .interp import func_ast
+    node = func_ast(fn)
+    out = {}
+    k = 0
+    for n in ast.walk(node):
+        if isinstance(n, (ast.For, ast.While)):
+            out[k] = sorted(_carried(n))
+            k += 1
+    return out
+
+
+def _carried(loop):
+    import ast
+    body = loop.body
+    target_names = {t.id for t in ast.walk(loop.target) if isinstance(t, ast.Name)} if isinstance(loop, ast.For) else set()
+    stored, mutated, loads_other = set(), set(), set()
+    comp_names = set()
+    for st in body:
+        for x in ast.walk(st):
+            if isinstance(x, (ast.ListComp, ast.SetComp, ast.DictComp, ast.GeneratorExp)):
+                for g in x.generators:
+                    comp_names |= {t.id for t in ast.walk(g.target) if isinstance(t, ast.Name)}
+    for st in body:
+        for x in ast.walk(st):
+            if isinstance(x, ast.Name) and isinstance(x.ctx, (ast.Store, ast.Del)):
+                stored.add(x.id)
+            if isinstance(x, ast.Call) and isinstance(x.func, ast.Attribute) and x.func.attr in _MUTATORS and isinstance(x.func.value, ast.Name):
+                mutated.add(x.func.value.id)
+            if isinstance(x, (ast.Subscript, ast.Attribute)) and isinstance(x.ctx, (ast.Store, ast.Del)) and isinstance(x.value, ast.Name):
+                mutated.add(x.value.id)
+            if isinstance(x, ast.AugAssign) and isinstance(x.target, ast.Name):
+                stored.add(x.target.id)
+    # reads that are not the receiver of a mutating call
+    receivers = set()
+    for st in body:
+        for x in ast.walk(st):
+            if isinstance(x, ast.Call) and isinstance(x.func, ast.Attribute) and x.func.attr in _MUTATORS and isinstance(x.func.value, ast.Name):
+                receivers.add(id(x.func.value))
+    for st in body:
+        for x in ast.walk(st):
+            if isinstance(x, ast.Name) and isinstance(x.ctx, ast.Load) and id(x) not in receivers:
+                loads_other.add(x.id)
+    carried = set()
+    # (1) read-before-write of a name assigned in the body
+    assigned = set(target_names)
+
+    def scan(stmts, assigned):
+        for st in stmts:
+            if isinstance(st, (ast.If,)):
+                for x in ast.walk(st.test):
+                    if isinstance(x, ast.Name) and isinstance(x.ctx, ast.Load) and x.id in stored and x.id not in assigned:
+                        carried.add(x.id)
+                a1 = scan(st.body, set(assigned))
+                a2 = scan(st.orelse, set(assigned))
+                assigned = a1 & a2
+                continue
+            if isinstance(st, (ast.For, ast.While, ast.Try, ast.With)):
+                inner = set(assigned)
+                for x in ast.walk(st):
+                    if isinstance(x, ast.Name) and isinstance(x.ctx, ast.Load) and x.id in stored and x.id not in inner:
+                        # may be assigned earlier inside the compound statement: only flag when never assigned before in it
+                        first_store = min([y.lineno * 10000 + y.col_offset for y in ast.walk(st) if isinstance(y, ast.Name) and isinstance(y.ctx, ast.Store) and y.id == x.id] or [10 ** 12])
+                        if x.lineno * 10000 + x.col_offset < first_store:
+                            carried.add(x.id)
+                continue
+            # simple statement: loads happen before the stores of the same statement (AugAssign loads its target)
+            if isinstance(st, ast.AugAssign) and isinstance(st.target, ast.Name) and st.target.id not in assigned:
+                carried.add(st.target.id)
+            val = getattr(st, "value", None)
+            for part in ([val] if val is not None else []) + ([st] if not isinstance(st, (ast.Assign, ast.AugAssign, ast.AnnAssign)) else []):
+                for x in ast.walk(part):
+                    if isinstance(x, ast.Name) and isinstance(x.ctx, ast.Load) and x.id in stored and x.id not in assigned:
+                        carried.add(x.id)
+            for x in ast.walk(st):
+                if isinstance(x, ast.Name) and isinstance(x.ctx, ast.Store):
+                    assigned.add(x.id)
+        return assigned
+    scan(body, assigned)
+    # (2) containers bound outside the loop, mutated and also read in the body
+    for name in mutated:
+        if name not in stored and name not in target_names and name in loads_other:
+            carried.add(name)
+    return carried - comp_names - {"self"}
